@@ -292,6 +292,28 @@ pub fn canon_sort_dedup(list: &mut Vec<Value>) {
 	list.dedup();
 }
 
+/// Brings hand-made facts into canonical form: sorts every `unknown`, `LocalVariableTable`,
+/// `LocalVariableTypeTable` list and sorts + dedups every `LineNumberTable` list (FACTS.md §1.4),
+/// recursively.
+pub fn canonicalize(v: &mut Value) {
+	match v {
+		Value::Array(a) => a.iter_mut().for_each(canonicalize),
+		Value::Object(m) => {
+			for (k, x) in m.iter_mut() {
+				canonicalize(x);
+				if let Value::Array(list) = x {
+					match k.as_str() {
+						"unknown" | "LocalVariableTable" | "LocalVariableTypeTable" => canon_sort(list),
+						"LineNumberTable" => canon_sort_dedup(list),
+						_ => {}
+					}
+				}
+			}
+		}
+		_ => {}
+	}
+}
+
 // ---------------------------------------------------------------------------------------------
 // descriptors
 
